@@ -364,6 +364,10 @@ def handleLine (toks : List String) : String :=
     match inextAllShow [stream] with
     | (some (len, kind), e) => s!"v len={len} kind={kind} ; {e}"
     | (none, e) => e
+  | ["longline", pre, ty, fill, n, tail, cut] =>
+    let stream := unhex pre ++ unhex ty ++ (List.replicate n.toNat! (unhex fill)).flatten ++ unhex tail
+    let c := cut.toNat!
+    streamOutcome (if c > 0 && c < stream.length then [stream.take c, stream.drop c] else [stream]) 1048576
   | ["deep", d, t] => streamOutcome [(List.replicate d.toNat! b!"*1\r\n").flatten ++ unhex t] 1048576
   | ["ctor", "int", n] =>
     match n.toInt? with
